@@ -133,7 +133,19 @@ class Engine(ExprMixin, CallMixin, BuiltinMixin, VerifyMixin):
         if key not in st.heap:
             ty = self.field_ty(cls, f)
             st.heap[key] = z3.Const("H_%s%s" % (key, CTX.tag), z3.ArraySort(CTX.sort(Ref(cls)), CTX.sort(ty)))
+            self.heap_wf(st.heap[key], cls, ty, CTX.axioms, key)
         return st.heap[key]
+
+    def heap_wf(self, arr, cls, ty, sink, key=None):
+        """Lists stored in heap fields have non-negative lengths (at any nesting the encoder knows)."""
+        if not core._has_list(ty):
+            return
+        if key is not None:
+            done = self.__dict__.setdefault("_heap_wf_done", set())
+            if key in done:
+                return
+            done.add(key)
+        sink.append(core.forall_ty(Ref(cls), lambda r: z3.And(wf(V(ty, z3.Select(arr, r))) or [z3.BoolVal(True)])))
 
     def heap_get(self, st, obj, f):
         cls = obj.ty.cls
@@ -178,7 +190,7 @@ class Engine(ExprMixin, CallMixin, BuiltinMixin, VerifyMixin):
             return core.mempty(ty.k, ty.v)
         if v.ty is EMPTY_SET and isinstance(ty, Set):
             return core.sempty(ty.elem)
-        if v.ty is EMPTY_DICT and isinstance(ty, Set):
+        if v.ty in (EMPTY_DICT, EMPTY_LIST) and isinstance(ty, Set):
             return core.sempty(ty.elem)
         if isinstance(ty, Opt) and v.ty in (EMPTY_LIST, EMPTY_DICT, EMPTY_SET):
             return core.osome(ty, self.adapt(v, ty.elem))
@@ -199,6 +211,13 @@ class Engine(ExprMixin, CallMixin, BuiltinMixin, VerifyMixin):
             for i in range(len(v.ty.elems)):
                 r = core.lappend(r, self.adapt(core.tget(v, i), ty.elem))
             return r
+        hook = getattr(self.reg, "coercions", {}).get((v.ty.key, ty.key))
+        if hook is not None:
+            return core.ufun("sf_" + hook, [v], ty)
+        if isinstance(ty, Opt) and v.ty != ty.elem and v.ty is not NONE:
+            hook = getattr(self.reg, "coercions", {}).get((v.ty.key, ty.elem.key))
+            if hook is not None:
+                return core.osome(ty, core.ufun("sf_" + hook, [v], ty.elem))
         return coerce(v, ty)
 
     # ------------------------------------------------------------------------------------------
